@@ -1,5 +1,5 @@
 (* EffectsSave.v — C10: WHERE harper-ls writes when it saves a dictionary, as the code computes it now
-   (harper-ls/src/dictionary_io.rs: file_dict_name, save_dict since 87b8642; backend.rs: get_file_dict_path).
+   (harper-ls/src/dictionary_io.rs: file_dict_name since 08b9da8, save_dict since 87b8642; backend.rs: get_file_dict_path).
    Executable definitions only; lemmas in Proofs/EffectsSaveProofs.v.  Extracted and compared, per
    HarperAddToFileDict / HarperAddToUserDict command of every traced session, with the open-for-writing and rename
    system calls the implementation really issued (harness/src/bin/c10.rs).
@@ -60,9 +60,18 @@ Definition render (cs : list bytes) : bytes := match cs with [] => [slash] | _ =
 Definition save_plan (dst : list bytes) : bytes * bytes * bytes :=
   let t := render (resolve (tmp_comps dst)) in (t, t, render (resolve dst)).
 
-(* HarperAddToFileDict: save_dict(config.file_dict_path.join(file_dict_name(url)?)); nothing is written when the URL
-   has no file path *)
+(* HarperAddToFileDict: save_dict(config.file_dict_path.join(file_dict_name(url)?)).  file_dict_name fails — and nothing
+   is written — when the URL has no file path, and (since 08b9da8) when that path has no component, i.e. the
+   rewritten name is empty (`file:///`) *)
 Definition file_dict_plan (filedir : bytes) (fp : option bytes) : option (bytes * bytes * bytes) :=
+  match fp with
+  | None => None
+  | Some p => if beqb (file_dict_name p) [] then None
+              else Some (save_plan (join_comps filedir (file_dict_name p)))
+  end.
+
+(* HISTORY (before 08b9da8, finding FC10a): the empty name was joined too — kept only for the regression witness *)
+Definition file_dict_plan_old (filedir : bytes) (fp : option bytes) : option (bytes * bytes * bytes) :=
   match fp with
   | None => None
   | Some p => Some (save_plan (join_comps filedir (file_dict_name p)))
@@ -70,11 +79,3 @@ Definition file_dict_plan (filedir : bytes) (fp : option bytes) : option (bytes 
 
 (* HarperAddToUserDict: save_dict(&config.user_dict_path) *)
 Definition user_dict_plan (user : bytes) : bytes * bytes * bytes := save_plan (comps user).
-
-(* PREPARED for fixes/FC10a-empty-file-dict-name.diff (not the code as it is now): file_dict_name fails on a URL that
-   names no file, nothing is written *)
-Definition file_dict_plan_fixed (filedir : bytes) (fp : option bytes) : option (bytes * bytes * bytes) :=
-  match fp with
-  | None => None
-  | Some p => if beqb (file_dict_name p) [] then None else file_dict_plan filedir (Some p)
-  end.
